@@ -146,3 +146,7 @@ def reversed_bytes(b):
 
 def listcomp_bytes(b):
     return [c + 1 for c in b]
+
+
+def join_bytes(a, b):
+    return b"".join([a, b"-", b]) + b":".join([b, a])
